@@ -41,15 +41,16 @@ def ty_rng(ty):
 
 
 class IV:
-    __slots__ = ("lin", "lo", "hi", "res", "cond")
+    __slots__ = ("lin", "lo", "hi", "res", "cond", "weak")
 
-    def __init__(self, lin, lo, hi, res=False, cond=None):
+    def __init__(self, lin, lo, hi, res=False, cond=None, weak=False):
         self.lin, self.lo, self.hi, self.res = lin, lo, hi, res
+        self.weak = weak   # a constant only because the interval of an otherwise unknown value collapsed: usable as a number, not as a form
         self.cond = cond   # for an undecided comparison: (lower, upper) bounds that `a - b` (a linear form) satisfies when it is true / false
 
     def key(self):
         return ("iv", tuple(sorted(self.lin.items())) if self.lin is not None else None, self.lo, self.hi, self.res,
-                (lin_key(self.cond[0]), self.cond[1], self.cond[2]) if self.cond else None)
+                (lin_key(self.cond[0]),) + tuple(self.cond[1:]) if self.cond else None)
 
     def is_const(self):
         return self.lo == self.hi and not self.res
@@ -216,6 +217,14 @@ def loop_headers(fn):
     return hdr
 
 
+class Case:
+    """one outcome of a call: the value and the bound (constant-free linear form, (lo, hi)) that holds in this case"""
+    __slots__ = ("v", "fact")
+
+    def __init__(self, v, fact=None):
+        self.v, self.fact = v, fact
+
+
 class LinInterp:
     def __init__(self, prog, p, scope, residue_adts=(), max_states=20000, max_steps=2000000):
         self.prog, self.p = prog, p
@@ -225,6 +234,7 @@ class LinInterp:
         self.expand = {}
         self.qinfo = {}        # Qk[L] -> (k, L)
         self.facts = {}        # path facts: lin_key(N) -> (lo, hi) for a constant-free linear form N
+        self.constructed = []  # (adt, lo, hi, location) of every single-integer struct built on some path
         self.events = []       # (kind, location, text): possible overflows of checked arithmetic, imprecise branches
         self.max_states, self.max_steps = max_states, max_steps
         self.stats = {"steps": 0, "states": 0, "merged": 0, "forks": 0, "paths": 0}
@@ -296,7 +306,7 @@ class LinInterp:
         if lo > hi:
             return None
         if lo == hi and lin is None:
-            lin = {"": lo} if lo else {}
+            return IV({"": lo} if lo else {}, lo, hi, weak=True)
         return IV(lin, lo, hi)
 
     def const(self, v):
@@ -310,7 +320,7 @@ class LinInterp:
 
     @staticmethod
     def L(v):
-        return None if v.res else v.lin
+        return None if (v.res or v.weak) else v.lin
 
     def canon(self, lin):
         """expand defined atoms down to inputs and quotients, coefficients modulo p"""
@@ -344,6 +354,30 @@ class LinInterp:
             if c:
                 out[a] = c
         return out
+
+    def congruent(self, a, b, facts=None):
+        """a = b (mod p) for all values of the atoms admitted on a path with these facts; atoms the path pins to one value are substituted"""
+        if a is None or b is None:
+            return False
+        d = self.canon(lin_add(a, b, -1))
+        if d is None:
+            return False
+        if not d:
+            return True
+        saved, self.facts = self.facts, (facts or {})
+        try:
+            c0, rest = d.get("", 0), {}
+            for x, c in d.items():
+                if x == "":
+                    continue
+                lo, hi = self.lin_rng({x: 1})
+                if lo == hi:
+                    c0 += c * lo
+                else:
+                    rest[x] = c
+        finally:
+            self.facts = saved
+        return not rest and c0 % self.p == 0
 
     def _expand_defs(self, cur):
         for _ in range(10000):
@@ -463,7 +497,7 @@ class LinInterp:
                 tb = {"Lt": (None, -1), "Le": (None, 0), "Gt": (1, None), "Ge": (0, None), "Eq": (0, 0), "Ne": None}[op]
                 fb = {"Lt": (0, None), "Le": (1, None), "Gt": (None, 0), "Ge": (None, -1), "Eq": None, "Ne": (0, 0)}[op]
                 sh = lambda bb: None if bb is None else tuple(None if x is None else x - c0 for x in bb)
-                cond = (n, sh(tb), sh(fb))
+                cond = (n, sh(tb), sh(fb), -c0)   # Ne true / Eq false: n != -c0
             return IV(None, 0, 1, cond=cond)
         checked = op.endswith("WithOverflow")
         base = op.replace("WithOverflow", "").replace("Unchecked", "")
@@ -546,24 +580,34 @@ class LinInterp:
         if e is None:
             return []
         out = []
+        n = {x: c for x, c in e.lin.items() if x != ""} if e.lin is not None else None
+        c0 = e.lin.get("", 0) if e.lin is not None else 0
+
+        def fact(lo_, hi_):
+            # the case condition as a bound on the constant-free part of the exact result
+            if not n:
+                return None
+            return (n, (None if lo_ is None else lo_ - c0, None if hi_ is None else hi_ - c0))
         if kind == "add":
             if e.lo < w:
                 v = self.mkv(e.lin, e.lo, min(e.hi, w - 1))
                 if v is not None:
-                    out.append((v, 0))
+                    out.append((v, 0, fact(None, w - 1)))
             if e.hi >= w:
                 v = self.mkv(lin_add(e.lin, {"": w}, -1), max(e.lo, w) - w, e.hi - w)
                 if v is not None:
-                    out.append((v, 1))
+                    out.append((v, 1, fact(w, None)))
         else:
             if e.hi >= 0:
                 v = self.mkv(e.lin, max(e.lo, 0), e.hi)
                 if v is not None:
-                    out.append((v, 0))
+                    out.append((v, 0, fact(0, None)))
             if e.lo < 0:
                 v = self.mkv(lin_add(e.lin, {"": w}), e.lo + w, min(e.hi, -1) + w)
                 if v is not None:
-                    out.append((v, 1))
+                    out.append((v, 1, fact(None, -1)))
+        if len(out) == 1:
+            out = [(out[0][0], out[0][1], None)]
         return out
 
     # ---- places -------------------------------------------------------------------------------
@@ -619,7 +663,13 @@ class LinInterp:
         for k in ("copy", "move"):
             if k in op:
                 root, path = self.resolve(fn, env, op[k])
-                return self.get(env, root, path)
+                v = self.get(env, root, path)
+                if self.facts and isinstance(v, IV) and v.lin is not None and not v.res and v.lo != v.hi:
+                    # what the path has learned since the value was computed
+                    l2, h2 = self.lin_rng(v.lin)
+                    if l2 > v.lo or h2 < v.hi:
+                        v = IV(v.lin, max(v.lo, l2), min(v.hi, h2), v.res, v.cond)
+                return v
         return self.const_val(op.get("const") or {})
 
     def const_val(self, c):
@@ -665,6 +715,8 @@ class LinInterp:
                 if any(rv["adt"].endswith(a) for a in self.residue_adts) and len(ops) == 1 and isinstance(ops[0], IV):
                     v = ops[0]
                     ops = [IV(self.canon(self.L(v)), 0, ty_rng("u64")[1], True)]
+                if len(ops) == 1 and isinstance(ops[0], IV):
+                    self.constructed.append((rv["adt"], ops[0].lo, ops[0].hi, loc))
                 return ("adt", rv.get("variant", 0), ops)
             return ops
         if k == "repeat":
@@ -685,7 +737,7 @@ class LinInterp:
                 return IV(None, r[0], r[1])
             if rv["op"] == "Not" and 0 <= a.lo and a.hi <= 1:
                 if a.cond and not a.is_const():
-                    return IV(None, 0, 1, cond=(a.cond[0], a.cond[2], a.cond[1]))
+                    return IV(None, 0, 1, cond=(a.cond[0], a.cond[2], a.cond[1], a.cond[3]))
                 return self.mkv(lin_add({"": 1}, self.L(a), -1), 1 - a.hi, 1 - a.lo) or IV(None, 0, 1)
             return self.unknown(rv.get("ty", ""))
         if k == "cast":
@@ -745,16 +797,36 @@ class LinInterp:
         if ity in INT_BITS and last in ("overflowing_add", "overflowing_sub", "wrapping_add", "wrapping_sub") and len(args) == 2:
             cases = self.wrap_cases("add" if last.endswith("add") else "sub", args[0], args[1], ity)
             if last.startswith("overflowing"):
-                return [[v, self.const(c)] for v, c in cases]
-            return [v for v, c in cases]
+                return [Case([v, self.const(c)], f) for v, c, f in cases]
+            return [Case(v, f) for v, c, f in cases]
         if ity in INT_BITS and last == "wrapping_neg" and len(args) == 1:
-            return [v for v, c in self.wrap_cases("sub", self.const(0), args[0], ity)]
+            return [Case(v, f) for v, c, f in self.wrap_cases("sub", self.const(0), args[0], ity)]
+        if ity in INT_BITS and last in ("checked_add", "checked_sub") and len(args) == 2:
+            cases = self.wrap_cases("add" if last.endswith("add") else "sub", args[0], args[1], ity)
+            return [Case(("adt", 1, [v]) if c == 0 else ("adt", 0, []), f) for v, c, f in cases]
         if ity in INT_BITS and last == "wrapping_mul" and len(args) == 2:
             lin, lo, hi = self.exact("Mul", args[0], args[1])
             v = self.mkv(lin, lo, hi) or IV(None, lo, hi)
             r = ty_rng(ity)
-            return [v if (r[0] <= v.lo and v.hi <= r[1]) else self.unknown(ity)]
+            if r[0] <= v.lo and v.hi <= r[1]:
+                return [v]
+            return [self.trunc(v, INT_BITS[ity]) if (v.lo >= 0 and ity.startswith("u")) else self.unknown(ity)]
         raise Undecided(f"call of {cn} in {fn.nname}")
+
+    def _with_fact(self, facts, n, bnd):
+        """facts extended by lo <= n <= hi (None = unbounded); None when the path becomes infeasible"""
+        fk = lin_key(n)
+        f = dict(facts)
+        o = f.get(fk, (None, None))
+        nl = bnd[0] if o[0] is None else (o[0] if bnd[0] is None else max(o[0], bnd[0]))
+        nh = bnd[1] if o[1] is None else (o[1] if bnd[1] is None else min(o[1], bnd[1]))
+        f[fk] = (nl, nh)
+        saved, self.facts = self.facts, f
+        try:
+            lo_, hi_ = self.lin_rng(n)
+        finally:
+            self.facts = saved
+        return None if lo_ > hi_ else f
 
     def iter_next(self, fn, it):
         """(iterator after the call, item or None) for the iterator shapes of a loop with a constant trip count"""
@@ -881,16 +953,17 @@ class LinInterp:
                             tb = next((x for v, x in listed if v == val), t["otherwise"])
                             bnd = d.cond[1] if val == 1 else d.cond[2]
                             e2 = dict(env)
-                            if bnd is not None:
-                                fk = lin_key(d.cond[0])
-                                f = dict(env.get("#facts") or {})
-                                o = f.get(fk, (None, None))
-                                nl = bnd[0] if o[0] is None else (o[0] if bnd[0] is None else max(o[0], bnd[0]))
-                                nh = bnd[1] if o[1] is None else (o[1] if bnd[1] is None else min(o[1], bnd[1]))
-                                f[fk] = (nl, nh)
-                                self.facts = f
+                            if bnd is None:
+                                # `n != c`: informative only when c is an end of n's interval
+                                ex = d.cond[3]
+                                self.facts = env.get("#facts") or {}
                                 lo_, hi_ = self.lin_rng(d.cond[0])
-                                if lo_ > hi_:
+                                if lo_ == hi_ == ex:
+                                    continue
+                                bnd = (ex + 1, None) if lo_ == ex else ((None, ex - 1) if hi_ == ex else None)
+                            if bnd is not None:
+                                f = self._with_fact(env.get("#facts") or {}, d.cond[0], bnd)
+                                if f is None:
                                     continue
                                 e2["#facts"] = f
                             succs.append((tb, e2))
@@ -918,11 +991,25 @@ class LinInterp:
                     if t.get("target") is None or not res:
                         break
                     self.stats["forks"] += len(res) - 1
-                    for rv in res[1:]:
-                        e2 = dict(env)
+                    nxt = []
+                    for rv in res:
+                        e2 = dict(env) if len(res) > 1 else env
+                        if isinstance(rv, Case):
+                            if rv.fact is not None:
+                                f = self._with_fact(e2.get("#facts") or {}, rv.fact[0], rv.fact[1])
+                                if f is None:
+                                    continue
+                                e2["#facts"] = f
+                            rv = rv.v
+                        self.facts = e2.get("#facts") or {}
                         self.write(g, e2, t["dest"], rv)
+                        nxt.append(e2)
+                    if not nxt:
+                        break
+                    for e2 in nxt[1:]:
                         work.append((t["target"], e2, imp))
-                    self.write(g, env, t["dest"], res[0])
+                    env = nxt[0]
+                    self.facts = env.get("#facts") or {}
                     b = t["target"]
                     continue
                 break   # unreachable / resume
